@@ -245,8 +245,6 @@ Definition imp_code (r : imp_res) : N := match r with ImpOk => 0 | ImpErr => 1 |
 
 (* finding recognisers (shapes of the input, not the property) *)
 Definition is_S19 (exported : list entry) : bool := has_origins exported.                 (* some pin has origins *)
-Definition is_empty_crdt_import (mgr : N) (lines : list jline) : bool :=
-  negb (N.eqb mgr 0) && match lines with [] => true | _ => false end.
 
 Definition export_check (id : N) (mgr : N) (keep : nat) (t : ptable) (src : N) (dst0 : option N)
            (exported : list entry) (lines : list jline) (edited : bool)
@@ -265,9 +263,9 @@ Definition export_check (id : N) (mgr : N) (keep : nat) (t : ptable) (src : N) (
   (* export then import reproduces the pinset and replaces whatever was there *)
   (if edited then [] else
      if N.eqb obs_res 0 && entries_eqb obs_after (pinset_of t src) then []
-     else [(id, 17, if is_S19 exported then 1 else if is_empty_crdt_import mgr lines then 2 else 0)]) ++
+     else [(id, 17, if is_S19 exported then 1 else 0)]) ++
   (* an import never takes the process down, whatever the stream *)
-  (if N.eqb obs_res 2 then [(id, 18, if is_empty_crdt_import mgr lines then 2 else 0)] else []).
+  (if N.eqb obs_res 2 then [(id, 18, 0)] else []).
 
 (* ------------------------------------------------------------------ *)
 Inductive payload :=
